@@ -1,6 +1,7 @@
 """C06 — integer arithmetic is exact over 64 bits or an error."""
 import re
 
+import guards
 import mir
 import ops
 from ops import BINOP, VALUE, ERR
@@ -8,7 +9,7 @@ from framework import RuleResult
 
 EXPECTED_PRIM = {
     "Sum": ("checked_add",), "Sub": ("checked_sub",), "Mul": ("checked_mul",),
-    "Div": ("checked_div",), "Mod": ("checked_rem", "wrapping_rem"),
+    "Div": ("checked_div",), "Mod": ("wrapping_rem",),   # (checked_rem also answers None for MIN % -1, whose exact result 0 fits)
 }
 I64_METHOD = re.compile(r"core::num::<impl i64>::(\w+)$")
 INEXACT = re.compile(r"core::num::<impl i64>::(wrapping|saturating|overflowing|unchecked)_\w+$")
@@ -47,6 +48,89 @@ def _has_int_value(f, bb):
     return False
 
 
+def _exact_rem_ok(g):
+    """g(a, b) -> Option<i64>: None iff b == 0, else Some(a.wrapping_rem(b))."""
+    if g is None or not g.full or g.arg_count != 2:
+        return False
+    rem = [c for c in g.calls() if (c.res or "").endswith("wrapping_rem")]
+    if len(rem) != 1:
+        return False
+    c = rem[0]
+    if g.canon_op(c.args[0])[0] != ("arg", 1) or g.canon_op(c.args[1])[0] != ("arg", 2):
+        return False
+    gd = guards.guard_of(g, c.bb)
+    if gd is None:
+        return False
+    _, rel, a, b, other = gd
+    if not ((rel == "Ne" and {repr(a), repr(b)} == {repr(("var", 2)), repr(("const", 0))})):
+        return False
+    # the zero edge answers None, the other edge Some(result of wrapping_rem)
+    nones = [bb for bb, i, pl, kd, ao, sp in g.aggregates("std::option::Option", "None")
+             if bb in g.reach_from(other) and not g.dominates(c.bb, bb)]
+    somes = [ao for bb, i, pl, kd, ao, sp in g.aggregates("std::option::Option", "Some")
+             if g.dominates(c.bb, bb)]
+    return bool(nones) and len(somes) == 1 and g.canon_op(somes[0][0])[0] == ("call", c.bb)
+
+
+def _table_driven(prog, f, ex, op, prims, lhs_pay, rhs_pay):
+    """(ok, message, where) for an operator whose primitive is chosen as a
+    function value in its own arm and applied through a function pointer."""
+    picks = []
+    for bb in sorted(ex):
+        for s in f.stmts(bb):
+            if s[0] != "=":
+                continue
+            for o in mir.rvalue_operands(s[2]):
+                k = mir.op_const(o)
+                if k and "fn" in k:
+                    picks.append((bb, s, k["fn"]))
+    if not picks:
+        return None
+    if len(set(p[2] for p in picks)) != 1:
+        return (False, "primitive: several function values %s" % sorted(set(p[2] for p in picks)), None)
+    bb0, st, fnpath = picks[0]
+    m = I64_METHOD.match(fnpath)
+    name = m.group(1) if m else fnpath.split("::")[-1]
+    if m:
+        if name not in prims:
+            return (False, "primitive=%s: not one of %s" % (name, prims), mir.span_loc(st[3]))
+        if name == "wrapping_rem":
+            return (False, "primitive=wrapping_rem: used without a zero-divisor guard", mir.span_loc(st[3]))
+    else:
+        if op != "Mod" or not _exact_rem_ok(prog.fns.get(fnpath)):
+            return (False, "primitive=%s: not a checked i64 primitive" % name, mir.span_loc(st[3]))
+    # the pointer call that applies it
+    tl = ops.forward_taint(f, seeds={st[1][0]})
+    pcs = [c for c in f.calls() if c.is_ptr and mir.is_place_operand(c.callee["ptr"])
+           and mir.op_place(c.callee["ptr"])[0] in tl and len(c.args) == 2]
+    if len(pcs) != 1:
+        return (False, "application: %d call(s) through the selected function value" % len(pcs), mir.span_loc(st[3]))
+    pc = pcs[0]
+    a0, a1 = f.canon_op(pc.args[0]), f.canon_op(pc.args[1])
+    if not (ops.same_value(a0, lhs_pay) and ops.same_value(a1, rhs_pay)):
+        return (False, "operand-order: the function value is not applied to (lhs, rhs)", pc.loc)
+    # result: Some -> Value::Int, None -> IntOverflow
+    u1 = [u for u in ops.forward_users(f, pc)
+          if (u.res or "").endswith("Option::<T>::map") and len(u.args) > 1
+          and (mir.op_const(u.args[1]) or {}).get("fn") == VALUE + "::Int"]
+    if len(u1) == 1:
+        u2 = [u for u in ops.forward_users(f, u1[0]) if (u.res or "").split("::")[-1] in ("ok_or_else", "ok_or")]
+        if len(u2) == 1 and (ERR, "IntOverflow") in ops.block_constructs(prog, f, u2[0].bb):
+            return (True, "%s applied to (lhs, rhs); Some -> Value::Int, None -> IntOverflow" % name, pc.loc)
+        # or matched after the join
+        tl2 = ops.forward_taint(f, u1[0])
+        for b2 in f.reach_from(u1[0].bb):
+            if f.term(b2)["k"] != "switch":
+                continue
+            i2 = f.switch_info(b2)
+            if i2 and i2["kind"] == "discr" and i2["enum"].startswith("std::option::Option<") and i2["place"][0] in tl2:
+                nt = dict(i2["cases"]).get("None", i2["otherwise"])
+                st_ = dict(i2["cases"]).get("Some", i2["otherwise"])
+                if nt != st_ and any(_constructs_overflow(prog, f, x) for x in f.reach_from(nt, avoid=[st_])):
+                    return (True, "%s applied to (lhs, rhs); Some -> Value::Int, None -> IntOverflow (matched after the join)" % name, pc.loc)
+    return (False, "result: the overflow (None) answer of %s does not lead to IntOverflow" % name, pc.loc)
+
+
 def rule_R06_1(ctx):
     prog = ctx.prog
     r = RuleResult("R06.1", "operator<->checked primitive table with "
@@ -74,6 +158,19 @@ def rule_R06_1(ctx):
             if c is not None and not c.is_ptr and I64_METHOD.match(c.res or ""):
                 calls.append(c)
         names = [I64_METHOD.match(c.res).group(1) for c in calls]
+        if not calls:
+            # table-driven form: the arm selects a primitive as a function
+            # value (`Sub => Some(i64::checked_sub)`) that is called later
+            td = _table_driven(prog, f, ex, op, prims, lhs_pay, rhs_pay)
+            if td is not None:
+                okk, msg, where_ = td
+                r.inst("%s: %s on (Int,Int) is table-driven: %s" % (f.path, op, msg))
+                if okk:
+                    r.ok(2)
+                else:
+                    r.fail(key + " table-driven " + msg.split(":")[0],
+                           "operator %s on two ints (table-driven): %s" % (op, msg), where=where_)
+                continue
         r.inst("%s: %s on (Int,Int) uses %s" % (f.path, op, names))
         if len(calls) != 1 or names[0] not in prims:
             r.fail(key + " primitive=%s" % ",".join(names),
@@ -310,6 +407,10 @@ def rule_R06_2(ctx):
                 n += 1
             if INEXACT.match(c.res or ""):
                 name = m.group(1)
+                if name == "wrapping_rem" and _exact_rem_ok(f) and f.path in prog.addr_taken():
+                    r.inst("%s: wrapping_rem inside a verified exact-remainder function (None iff divisor 0)" % f.path)
+                    r.ok()
+                    continue
                 if name == "wrapping_rem" and f.path in allowed_members:
                     r.inst("%s: wrapping_rem (guard checked by R06.1)" % f.path)
                     r.ok()
@@ -337,6 +438,17 @@ def rule_R06_2(ctx):
                 r.fail("%s | i64 operator impl %s" % (f.path, c.declared.split("::")[2]),
                        "%s applies the %s operator to i64 operands"
                        % (f.path, c.declared), where=c.loc)
+    # (primitives referenced as function values count too: table-driven code)
+    for f in prog.hand_fns():
+        for bb, i, pl, rv, sp in f.assigns():
+            for o in mir.rvalue_operands(rv):
+                k = mir.op_const(o)
+                if k and "fn" in k and I64_METHOD.match(k["fn"]):
+                    n += 1
+                    if INEXACT.match(k["fn"]):
+                        r.fail("%s | primitive=%s (as a function value)" % (f.path, k["fn"].split("::")[-1]),
+                               "%s selects the inexact i64 primitive %s as a function value" % (f.path, k["fn"]),
+                               where=mir.span_loc(sp))
     r.require_floor("i64 method calls seen", n, 4)
     if not r.violations:
         r.ok()
@@ -430,6 +542,26 @@ def rule_R06_4(ctx):
                 if s[0] == "=" and s[2][0] == "bin" and s[2][1] in ("Gt", "Ge", "Lt", "Le") \
                         and s[2][4] in ("i64", "&i64"):
                     found.append((s[2][1], s[2][2], s[2][3], mir.span_loc(s[3])))
+        if not found:
+            # table-driven: the arm selects `i64::gt`/... as a function value
+            # that is applied through a pointer later
+            picks = []
+            for bb in sorted(ex):
+                for s in f.stmts(bb):
+                    if s[0] != "=":
+                        continue
+                    for o in mir.rvalue_operands(s[2]):
+                        k = mir.op_const(o)
+                        if k and "fn" in k and k["fn"].split("::")[-1] in ("gt", "ge", "lt", "le") \
+                                and "i64" in (k.get("fn_full") or k.get("ty") or ""):
+                            picks.append((s, k["fn"].split("::")[-1]))
+            if len(picks) == 1:
+                st_, nm_ = picks[0]
+                tl = ops.forward_taint(f, seeds={st_[1][0]})
+                pcs = [c for c in f.calls() if c.is_ptr and mir.is_place_operand(c.callee["ptr"])
+                       and mir.op_place(c.callee["ptr"])[0] in tl and len(c.args) == 2]
+                if len(pcs) == 1:
+                    found.append((nm_, pcs[0].args[0], pcs[0].args[1], pcs[0].loc))
         r.inst("%s: %s on (Int,Int) -> %s" % (f.path, op, [x[0] for x in found]))
         if len(found) != 1:
             r.fail("%s | op=%s comparisons=%d" % (f.path, op, len(found)),
